@@ -16,6 +16,7 @@ import neuropixel
 import ibldsp.fourier as fourier
 import ibldsp.utils as utils
 import ibldsp.plots
+import ibldsp._verif as _verif
 
 
 def agc(x, wl=0.5, si=0.002, epsilon=1e-8, gpu=False):
@@ -511,6 +512,11 @@ def decompress_destripe_cbin(
 
         # Find the maximum sample for each chunk
         max_s = _sr.ns if i_chunk == n_chunk - 1 else (i_chunk + 1) * CHUNK_SIZE
+        if _verif.ON:
+            _verif.emit("WorkerStart", worker=i_chunk, nworkers=n_chunk, n_batch=n_batch, first_s=int(first_s),
+                        max_s=int(max_s), ns=int(_sr.ns), nbatch=int(NBATCH), taper=SAMPLES_TAPER,
+                        chunk_size=CHUNK_SIZE, offset=int(offset), nc_out=int(nc_out), nbytes=int(nbytes),
+                        ns2add=int(ns2add))
         # need to redefine this here to avoid 4 byte boundary error
         win = pyfftw.empty_aligned((ncv, NBATCH), dtype="float32")
         WIN = pyfftw.empty_aligned((ncv, int(NBATCH / 2 + 1)), dtype="complex64")
@@ -536,6 +542,9 @@ def decompress_destripe_cbin(
             else:
                 aid.seek(rms_offset + (n_batch * ncv * rms_nbytes))
                 tid.seek(time_offset + (n_batch * rms_nbytes))
+        if _verif.ON:
+            _verif.emit("Seek", worker=i_chunk, pos=fid.tell(),
+                        rms_pos=aid.tell() if compute_rms else -1, time_pos=tid.tell() if compute_rms else -1)
 
         while True:
             last_s = np.minimum(NBATCH + first_s, _sr.ns)
@@ -587,19 +596,32 @@ def decompress_destripe_cbin(
             # apply the whitening matrix if necessary
             if wrot is not None:
                 chunk[:, :ncv] = np.dot(chunk[:, :ncv], wrot)
+            if _verif.ON:
+                _vpos = fid.tell()
             chunk[:, :nc_out].astype(dtype).tofile(fid)
+            if _verif.ON:
+                _verif.emit("WriteBatch", worker=i_chunk, first_s=int(first_s), last_s=int(last_s),
+                            pos_before=_vpos, pos_after=fid.tell(), rows=int(chunk.shape[0]),
+                            ind2save=[int(ind2save[0]), int(ind2save[1])],
+                            rms_pos=aid.tell() if compute_rms else -1, sat_range=[int(first_s), int(last_s)])
             first_s += NBATCH - SAMPLES_TAPER * 2
 
             if last_s >= max_s:
                 if last_s == _sr.ns:
                     if ns2add > 0:
+                        if _verif.ON:
+                            _vpos = fid.tell()
                         np.tile(chunk[-1, :nc_out].astype(dtype), (ns2add, 1)).tofile(
                             fid
                         )
+                        if _verif.ON:
+                            _verif.emit("Pad", worker=i_chunk, pos_before=_vpos, pos_after=fid.tell(), rows=int(ns2add))
                 fid.close()
                 if compute_rms:
                     aid.close()
                     tid.close()
+                if _verif.ON:
+                    _verif.emit("WorkerDone", worker=i_chunk, last_s=int(last_s))
                 break
 
     _ = Parallel(n_jobs=nprocesses)(
